@@ -299,6 +299,13 @@ def check(prop, tier, seed, t0, no_build=False):
                     broken.append("leanchecker: " + tail(out))
                 else:
                     ctx.notes.append("leanchecker re-checked " + " ".join(modules))
+                tmods = [m for m in tie.get("modules", []) if m not in tie.get("failed_modules", [])]
+                if tmods and not tie["broken"]:
+                    rc, out = core.sh(["lake", "env", "leanchecker"] + tmods, cwd=core.LEAN, timeout=3000)
+                    if rc != 0:
+                        tie["broken"].append("leanchecker (tie modules): " + tail(out, 300))
+                    else:
+                        ctx.notes.append("leanchecker re-checked " + " ".join(tmods))
         else:
             names = sum((core.theorem_names(m) for m in modules), [])
             nthm = len(names)
